@@ -86,8 +86,11 @@ Definition pstep (w : world) (e : pevent) : option world :=
       end
   | Restart i =>
       match zget (w_nodes w) i with
-      | Some nd => Some (mkW (w_n w) (w_byz w) (zset (w_nodes w) i (restart nd)) (w_blocks w)
-                             (w_lpb w) (w_last_slot w) (w_now w))
+      | Some nd =>
+          (* blockfactory.worker: lpbNo := bsLoader.lpbNo(), the LpbNo of the restored status *)
+          let nd' := restart nd in
+          Some (mkW (w_n w) (w_byz w) (zset (w_nodes w) i nd') (w_blocks w)
+                    (zset (w_lpb w) i (ls_lpb (st_ls (nd_st nd')))) (w_last_slot w) (w_now w))
       | None => None
       end
   end.
